@@ -164,6 +164,12 @@ impl SubRule {
         // NOTE: assumes parent has done reversals
         let mut start_pos = *pos;
         start_pos.increment(word_rev);
+        self.match_before_env_from(states, word_rev, start_pos, ins_match_before, is_context)
+    }
+
+    /// As `match_before_env`, but `start_pos` is the (reversed) position of the segment next to the target itself
+    fn match_before_env_from(&self, states: &[Item], word_rev: &Word, start_pos: SegPos, ins_match_before: bool, is_context: bool) -> Result<bool, RuleRuntimeError> {
+        let mut start_pos = start_pos;
         let mut is_match = if is_context {
             true
         } else {
@@ -818,8 +824,8 @@ impl SubRule {
                     self.variables.borrow_mut().clear();
                     match self.insertion_match(&res_word, pos)? {
                         Some(ins) => {                                    
-                            if self.insertion_match_exceptions(word, ins)? {
-                                pos.increment(word);
+                            if self.insertion_match_exceptions(&res_word, ins)? {
+                                pos.increment(&res_word);
                                 continue;
                             }
                             let (res, next_pos) = self.insert(&res_word, ins, is_context_after)?;
@@ -845,6 +851,20 @@ impl SubRule {
         }
     }
 
+    /// Position in the reversed word of the segment just before the insertion point `ins_pos`, which may be
+    /// the end of a syllable or of the word and so not the position of a segment itself.
+    /// Out of bounds when nothing comes before the insertion point
+    fn reversed_before(word: &Word, word_rev: &Word, ins_pos: SegPos) -> SegPos {
+        let mut n = word.seg_count_from(ins_pos);
+        for (i, syll) in word_rev.syllables.iter().enumerate() {
+            if n < syll.segments.len() {
+                return SegPos::new(i, n)
+            }
+            n -= syll.segments.len();
+        }
+        SegPos::new(word_rev.syllables.len(), 0)
+    }
+
     fn insertion_match_exceptions(&self, word: &Word, ins_pos: SegPos) -> Result<bool, RuleRuntimeError> {
         let empty = Vec::new();
         let exceptions = self.get_exceptions();
@@ -862,8 +882,8 @@ impl SubRule {
             (false, true) => {
                 // #_
                 let word_rev = &word.reverse();
-                let pos_rev = ins_pos.reversed(word);
-                let match_bef = self.match_before_env(&before_expt, word_rev, &pos_rev, false, false)?;
+                let pos_rev = Self::reversed_before(word, word_rev, ins_pos);
+                let match_bef = self.match_before_env_from(&before_expt, word_rev, pos_rev, false, false)?;
                 Ok(match_bef)
             },
             (true, false) => {
@@ -878,8 +898,8 @@ impl SubRule {
             // #_#
             (false, false) => {
                 let word_rev = &word.reverse();
-                let pos_rev = ins_pos.reversed(word);
-                let match_bef = self.match_before_env(&before_expt, word_rev, &pos_rev, false, false)?;
+                let pos_rev = Self::reversed_before(word, word_rev, ins_pos);
+                let match_bef = self.match_before_env_from(&before_expt, word_rev, pos_rev, false, false)?;
                 let match_aft = self.match_after_env(after_expt, word, &ins_pos, false, false, false)?;
 
                 Ok(match_bef && match_aft)
